@@ -271,7 +271,7 @@ inline void InputSock::recvPacket()
           perror("recvfrom: ");
           break;
         }
-        else if (ret > 0)
+        else if ((size_t)ret > (sock_offset_ + sock_tail_)) // a datagram that cannot hold the layers plus a payload is dropped
         {
           pkt->setData(sock_offset_, ret - sock_offset_ - sock_tail_);
           pushPacket(pkt);
